@@ -477,6 +477,14 @@ def discharge_one(job):
         elif job.get("recheck_cvc5"):
             v2, dt2, r2 = solve_smt2_cvc5(job["smt2"], job.get("cvc5_s", 20))
             res["cvc5"] = {"verdict": v2, "secs": dt2, "reason": r2}
+        if res["verdict"] == "unknown":
+            # nothing decided within the budget (a loaded machine is enough for that): one more attempt with six times the
+            # time before the obligation is reported open / as a candidate
+            v3, dt3, r3, mv3 = solve_smt2_z3(job["smt2"], 6 * job.get("z3_ms", 10000), job.get("wanted"))
+            res["retry"] = {"verdict": v3, "secs": dt3}
+            res["secs"] = res["secs"] + dt3
+            if v3 in ("unsat", "sat"):
+                res.update(verdict=v3, backend="z3", reason=r3, model=mv3 if v3 == "sat" else None)
         if res["verdict"] == "unknown" and ground and ground["verdict"] == "sat":
             # the decidable weakening has a model and the full theory could not exclude it
             res.update(verdict="candidate", model=ground["model"],
